@@ -560,7 +560,118 @@ fn kind(op: &DOp) -> &'static str {
     }
 }
 
+/// One case of the large family: the hub graph `conns` on 4 nodes with
+/// drop-counting values, optionally used (look-ups and searches), optionally
+/// owned by a container too; then the node handles are dropped in `order`
+/// (a value whose node no handle mentions any more must be released at once:
+/// edges never own nodes), then the container.
+#[derive(Serialize, Deserialize, Clone, Debug)]
+pub struct LDCase {
+    pub name: String,
+    pub n: usize,
+    pub conns: Vec<(u8, u8)>,
+    pub used: bool,
+    pub container: bool,
+    pub order: Vec<u8>,
+}
+
+pub fn run_large<F: Fl>(c: &LDCase) -> Result<(), (String, String)> {
+    let desc = format!("{} ({} edges on {} nodes){}{}, node handles dropped in order {:?}", c.name, c.conns.len(), c.n, if c.used { ", look-ups and searches run" } else { "" }, if c.container { ", nodes also in a container that is dropped last" } else { "" }, c.order);
+    let r = guarded(|| -> Result<(), Bad> {
+        if F::SYNC {
+            ensure_monitor();
+        }
+        let reg = Arc::new(Registry::default());
+        let mut nodes: Vec<Option<F::Node>> = (0..c.n).map(|k| Some(F::node(k as K, Val::tracked((k % 2) as i8, k as u8, &reg)))).collect();
+        for (i, (u, v)) in c.conns.iter().enumerate() {
+            F::connect(nodes[*u as usize].as_ref().unwrap(), nodes[*v as usize].as_ref().unwrap(), (i % 100) as E);
+        }
+        if c.used {
+            for u in 0..c.n {
+                let nu = nodes[u].as_ref().unwrap();
+                for v in 0..c.n as K {
+                    let _ = (F::is_connected(nu, v), F::find_out(nu, v), F::find_in(nu, v));
+                }
+                let _ = (F::deg_out(nu), F::deg_in(nu), F::edges_out(nu).len(), F::edges_in(nu).len());
+                for kind in ALL_KINDS {
+                    let res = if kind.is_order() { ResK::Nodes } else { ResK::Path };
+                    let cfg = Cfg { kind, transpose: false, target: if kind.is_order() { None } else { Some(((u + 1) % c.n) as K) }, meth: Meth::None, res, alt: false, tt: false };
+                    let _ = F::search(nu, &cfg, &mut |_| true);
+                }
+            }
+        }
+        let g = if c.container {
+            let mut g = F::g_new();
+            for nd in nodes.iter().flatten() {
+                F::g_insert(&mut g, nd.clone());
+            }
+            Some(g)
+        } else {
+            None
+        };
+        for k in &c.order {
+            for j in 0..c.n {
+                if reg.dropped(j) != 0 && nodes[j].is_some() {
+                    return bad("large/released-while-held", format!("the value of n{} was released while its handle was still held", j));
+                }
+            }
+            nodes[*k as usize] = None;
+            let want = if c.container { 0 } else { 1 };
+            if reg.dropped(*k as usize) != want {
+                return bad(if want == 1 { "large/not-released-when-last-handle-dropped" } else { "large/released-while-in-container" }, format!("after dropping the handle of n{} its value was released {} time(s), expected {}", k, reg.dropped(*k as usize), want));
+            }
+        }
+        drop(g);
+        for k in 0..c.n {
+            if reg.dropped(k) != 1 {
+                return bad("large/final-not-released-exactly-once", format!("after dropping every handle the value of n{} was released {} time(s)", k, reg.dropped(k)));
+            }
+        }
+        let (made, dropped) = (reg.clones_made.load(std::sync::atomic::Ordering::SeqCst), reg.clones_dropped.load(std::sync::atomic::Ordering::SeqCst));
+        if made != dropped {
+            return bad("large/value-clone-leaked", format!("{} clones of node values were made, {} released", made, dropped));
+        }
+        Ok(())
+    });
+    match r {
+        Ok(Ok(())) => Ok(()),
+        Ok(Err((code, d))) => Err((code, format!("[{}]: {}", desc, d))),
+        Err(f) => Err((format!("large/{}", f.kind()), format!("[{}]: {}", desc, f.msg()))),
+    }
+}
+
+pub fn large_family<F: Fl>(job: &Job, dmax: usize, out: &mut Out) {
+    let prop = job.property.as_str();
+    let orders: Vec<Vec<u8>> = vec![vec![0, 1, 2, 3], vec![3, 2, 1, 0], vec![1, 0, 3, 2]];
+    for (gi, (name, n, conns)) in crate::gsweep::hub_graphs(dmax).into_iter().enumerate() {
+        if gi % job.nshards != job.shard {
+            continue;
+        }
+        let conns: Vec<(u8, u8)> = conns.iter().map(|(u, v)| (*u as u8, *v as u8)).collect();
+        for used in [false, true] {
+            for container in [false, true] {
+                for order in &orders {
+                    crate::progress::tick();
+                    let c = LDCase { name: name.clone(), n, conns: conns.clone(), used, container, order: order.clone() };
+                    crate::progress::set_case(|| json!({"kind":"drops-large","flavour":F::NAME,"case":c}).to_string());
+                    out.stats.inc("evaluations");
+                    out.stats.inc("transitions");
+                    out.stats.inc("nontrivial");
+                    out.stats.inc("large_family_cases");
+                    out.stats.max("max_edges_at_hub", conns.len() as u64);
+                    if let Err((class, what)) = run_large::<F>(&c) {
+                        out.report(Violation { property: prop.into(), engine: "drops".into(), flavour: F::NAME.into(), class, what, case: json!({"kind":"drops-large","flavour":F::NAME,"case":c}), order: (1000 + conns.len()) as u64 });
+                    }
+                }
+            }
+        }
+    }
+}
+
 pub fn explore<F: Fl>(job: &Job, out: &mut Out) {
+    if let Some(d) = job.params.get("large").and_then(|v| v.as_u64()) {
+        return large_family::<F>(job, d as usize, out);
+    }
     let p: DParams = serde_json::from_value(job.params.clone()).expect("drops params");
     let prop = job.property.as_str();
     let alpha = ops(p.n, p.max_handles);
@@ -629,6 +740,14 @@ pub fn explore<F: Fl>(job: &Job, out: &mut Out) {
 
 pub fn replay<F: Fl>(prop: &str, case: &Value) -> Vec<Violation> {
     let mut out = Out::new();
+    if case["kind"] == "drops-large" {
+        let c: LDCase = serde_json::from_value(case["case"].clone()).expect("large drops case");
+        if let Err((class, what)) = run_large::<F>(&c) {
+            println!("  {}", what);
+            out.report(Violation { property: prop.into(), engine: "drops".into(), flavour: F::NAME.into(), class, what, case: case.clone(), order: 0 });
+        }
+        return out.viols.into_values().collect();
+    }
     let p: DParams = serde_json::from_value(case["params"].clone()).expect("params");
     let h: Vec<DOp> = serde_json::from_value(case["history"].clone()).expect("history");
     println!("  program: {}", show_hist(p.n, &p.init, &h));
